@@ -14,7 +14,7 @@ Corpus(name) == ndJsonDeserialize(CorpusDir \o "/" \o name \o ".ndjson")
 RV18 == Corpus("RV18")
 DV18 == Corpus("DV18")
 P2V18 == Corpus("P2V18")
-BadClasses == <<"empty", "truncated", "garbage", "notjson">>
+BadClasses == <<"empty", "truncated", "garbage", "notjson", "twodocs", "junkthendoc", "longgarbage", "ffpad", "nbsppad", "nelpad", "lspad">>
 
 VARIABLE sc       \* the scenario descriptor (constant during a behaviour)
 vars == <<sc, ruleText, dataArg, stdin, dataText, pc, pending, outcome, stdout, status>>
@@ -23,10 +23,12 @@ vars == <<sc, ruleText, dataArg, stdin, dataText, pc, pending, outcome, stdout, 
 TextOf(C, i) == IF i > 0 THEN Valid(C[i]) ELSE Invalid(BadClasses[-i])
 \* st: how the harness writes the (valid) texts - 1 compact, 2 pretty-printed over several lines, 3 padded with
 \* white space and with object keys in reverse order; the model abstracts texts to values, so st cannot matter
-Scenarios == [r : (1..Len(RV18)) \cup {-1, -2, -3, -4}, d : (1..Len(DV18)) \cup {-1, -2, -3, -4, -5}, mode : {1, 2, 3}, st : {1, 2, 3}]
-\* class -5: invalid UTF-8, only on standard input
-Admissible(s) == s.d = -5 => s.mode \in {2, 3}
-DataTextOf(s) == IF s.d = -5 THEN Invalid("badutf8") ELSE TextOf(DV18, s.d)
+NBad == Len(BadClasses)
+Scenarios == [r : (1..Len(RV18)) \cup {-q : q \in 1..NBad}, d : (1..Len(DV18)) \cup {-q : q \in 1..(NBad + 1)}, mode : {1, 2, 3}, st : {1, 2, 3}]
+             \cup [r : {1, 2, 11}, d : {2, 4, 7}, mode : {1, 2, 3}, st : {4}]
+\* class -(NBad+1): invalid UTF-8, only on standard input; invalid texts need no style variants
+Admissible(s) == (s.d = -(NBad + 1) => s.mode \in {2, 3}) /\ ((s.r < 0 \/ s.d < 0) => s.st = 1)
+DataTextOf(s) == IF s.d = -(NBad + 1) THEN Invalid("badutf8") ELSE TextOf(DV18, s.d)
 Junk == Invalid("junk")     \* what is on standard input when the data comes as an argument: must be ignored
 
 Init == /\ sc \in {s \in Scenarios : Admissible(s)}
